@@ -84,6 +84,7 @@ type Scenario struct {
 	Step       func(x *Exec) []Failure // oracle + reference update, called for every executed transition
 	SeedStep   bool                    // call Step (and count failures) on seed transitions too
 	Expand     func(x *Exec) bool      // optional: whether to expand the successor (default: not rejected and no error for callbacks/blocks? -> see defaultExpand)
+	Late       func(x *Exec) []Failure // optional: called for an expanded transition after its successor's subtree has been explored
 	Required   []string                // counters that must be > 0 (vacuity guard)
 	Note       string
 	KeyExtra   func(n *Node) []byte // optional extra identity
@@ -313,6 +314,12 @@ func (r *runner) dfs(w *world.World, n *Node, seed int, cnt *Counters) {
 		}
 		expanded = true
 		r.dfs(w, next, seed, cnt)
+		if r.sc.Late != nil && !r.stop.Load() {
+			// post-order hook: the successor's whole subtree has been executed on this world in the meantime
+			for _, f := range r.sc.Late(&Exec{W: w, Prev: n, Op: op, Res: res, Next: next, Cnt: cnt}) {
+				r.record(f, seed, next.Trace)
+			}
+		}
 	}
 	if !expanded {
 		r.sample(seed, n)
